@@ -38,6 +38,25 @@ def x(name, ctx, *a):
     return None
 
 
+def division_all_contents(ctx, f):
+    """C07.R4 (every block content); when the division has been rewritten outside the linear-form domain, the concrete basis and
+    samples of C07.R3 decide instead"""
+    d = Gp.c07_r4(ctx, f)
+    if not d:
+        d3 = Gp.c07_r3(ctx, f)
+        return d3 and None  # decided on the basis only: not "every content"
+    return d
+
+
+def c09_classifier(ctx, f):
+    """C09.T1 over the private classifier; when that helper is gone the same clause is decided through best_encoding (C09.R4)"""
+    if f.fn("encode::is_qr_alphanumeric") is not None:
+        T.c09_t1(ctx, f)
+        return
+    d = G.c09_r4(ctx, f)
+    T.c09_t1(soft_if(ctx, d, "C09.R4"), f)
+
+
 def tables_core(ctx, f):
     lay = T.c02_t1(ctx, f)
     dcw = T.c02_t2(ctx, f)
@@ -55,7 +74,7 @@ def C01(ctx):
     T.c05_t2(ctx, f)
     T.c06_t1(ctx, f)
     T.c07_t1(ctx, f)
-    Gp.c07_r4(ctx, f)
+    division_all_contents(ctx, f)
     d_app = G.c06_r3(ctx, f)
     d_enc = G.c06_r2(ctx, f)
     sctx6 = soft_if(ctx, d_app and d_enc, "C06.R2/R3")
@@ -66,12 +85,13 @@ def C01(ctx):
     R.c01_r1(ctx, f)
     d_pipe = G.c01_r6(ctx, f)
     R.c01_r2(soft_if(ctx, d_pipe, "C01.R6"), f)
+    G.c04_r5(ctx, f)
     d_sel = G.c11_r8(ctx, f)
     R.c04_r1(soft_if(ctx, d_sel, "C11.R8"), f)
     R.c08_r1(ctx, f, rid="C01.R3")
     T.c03_t1(ctx, f)
     T.c03_t2(ctx, f)
-    T.c09_t1(ctx, f)
+    c09_classifier(ctx, f)
     T.c09_t2(ctx, f)
     d_il = G.c02_r4(ctx, f)
     E.c02_r2(soft_if(ctx, d_il, "C02.R4"), f)
@@ -95,7 +115,7 @@ def C02(ctx):
     T.c02_r1(ctx, f, tot)
     T.c07_r1(ctx, f, lay, deg)
     T.c07_t1(ctx, f)
-    Gp.c07_r4(ctx, f)
+    division_all_contents(ctx, f)
     d_il = G.c02_r4(ctx, f)
     E.c02_r2(soft_if(ctx, d_il, "C02.R4"), f)
     x("c02_r3", soft_if(ctx, d_il, "C02.R4"), f)
@@ -131,6 +151,7 @@ def C04(ctx):
     f = ctx.facts("default")
     T.c04_t1(ctx, f)
     T.c04_t2(ctx, f)
+    G.c04_r5(ctx, f)
     d_sel = G.c11_r8(ctx, f)
     R.c04_r1(soft_if(ctx, d_sel, "C11.R8"), f)
     G.c01_r6(ctx, f)
@@ -200,6 +221,7 @@ def C07(ctx):
 def C08(ctx):
     f = ctx.facts("default")
     R.c08_r1(ctx, f)
+    G.c04_r5(ctx, f)
     d_sel = G.c11_r8(ctx, f)
     R.c04_r1(soft_if(ctx, d_sel, "C11.R8"), f)
     G.prepare(ctx, f, {"blank", "format", "masks", "place"})
@@ -219,14 +241,16 @@ def C08(ctx):
 
 def C09(ctx):
     f = ctx.facts("default")
-    T.c09_t1(ctx, f)
+    d_conc = G.c09_r4(ctx, f)
+    # the classifier is a private helper: when it is gone (inlined, replaced by a bit set) the scan is decided through best_encoding
+    T.c09_t1(ctx if f.fn("encode::is_qr_alphanumeric") is not None else soft_if(ctx, d_conc, "C09.R4"), f)
     T.c09_t2(ctx, f)
     R.c09_r1(ctx, f)
     d_scan = G.c09_r3(ctx, f)
-    x("c09_r2", soft_if(ctx, d_scan, "C09.R3"), f)
+    x("c09_r2", soft_if(ctx, d_scan or d_conc, "C09.R3/R4"), f)
     return dict(
         level="other",
-        explanation='The classifier is folded over all 256 byte values (= the ISO 45-character set) and agrees with the value tables of the encoders on every admitted byte; best_encoding is partially evaluated over every class pattern (digit / other alphanumeric / other) of inputs up to length 7 (8 in the thorough tier): Numeric iff all digits (including the empty input), Alphanumeric iff all in the set and not all digits, Byte otherwise; the mode used is the forced mode, else best_encoding of the same input.',
+        explanation='The classifier is folded over all 256 byte values (= the ISO 45-character set) and agrees with the value tables of the encoders on every admitted byte; best_encoding is partially evaluated over every class pattern (digit / other alphanumeric / other) of inputs up to length 7 (8 in the thorough tier): Numeric iff all digits (including the empty input), Alphanumeric iff all in the set and not all digits, Byte otherwise; best_encoding is also evaluated on ~10 000 concrete inputs (every byte value alone, beside and between members of each class, every triple over class representatives and their aliases modulo 128, inputs of up to 7 090 bytes with one deviating byte at either end or in the middle); the mode used is the forced mode, else best_encoding of the same input.',
     )
 
 
@@ -239,14 +263,14 @@ def C10(ctx):
     T.c07_r1(ctx, f, lay, deg)
     T.c03_t1(ctx, f)
     T.c06_t4(soft_if(ctx, G.c06_r3(ctx, f), "C06.R3"), f)
-    T.c09_t1(ctx, f)
+    c09_classifier(ctx, f)
     T.c09_t2(ctx, f)
     # the configuration-determined stages cannot panic for any configuration (a failed bounds/overflow assert or an explicit panic
     # met by the partial evaluator is reported by the rule that met it), and they produce what the next stage expects
     G.prepare(ctx, f, {"blank", "format", "masks", "place"})
     d_enc = G.c06_r2(ctx, f)
     d_il = G.c02_r4(ctx, f)
-    d_div = Gp.c07_r4(ctx, f)
+    d_div = division_all_contents(ctx, f)
     d_blank = G.c03_r3(ctx, f)
     d_place = G.c01_r5(ctx, f)
     d_fmt = G.c04_r3(ctx, f)
@@ -296,6 +320,7 @@ def C10(ctx):
 
 def C11(ctx):
     f = ctx.facts("default")
+    G.c04_r5(ctx, f)
     d_sel = G.c11_r8(ctx, f)
     d_score = Sp.c11_r9(ctx, f)
     # R2 (each candidate ranked by its own penalty) stays a hard rule: it carries the known finding D1
